@@ -260,6 +260,22 @@ def run_case(case):
                     else:
                         viol = cmp_parts(got_o, exp, "partitions_optimized")
                     bump("partition_selections_compared")
+                    if viol is None and sel != "repeated":
+                        # row counts answered without reading data (len / Lengths / size) of the selection, of a Series taken from it,
+                        # and of a second, different selection of the same size on the same collection (stale per-source caches)
+                        from vmon.planaudit import count_checks
+
+                        P2 = [(i + 1) % n for i in P]
+                        for tagc, yy, pp in (("sel", y, P), ("sel2", x.partitions[P2] if sel != "get_partition" else x.get_partition(P2[0]), P2)):
+                            expc = [full[i] for i in pp]
+                            viol = count_checks(yy, expc, bump)
+                            if viol is None and isinstance(yy._meta, pd.DataFrame) and yy._meta.shape[1]:
+                                c0 = yy._meta.columns[0]
+                                viol = count_checks(yy[c0], [e_[c0] for e_ in expc], bump)
+                            if viol is not None:
+                                viol["which"] = tagc
+                                break
+                        bump("selection_count_oracles")
                     if pd_fire:
                         rec["nt"].append(f"{case['source']}|{case['chain']}|{sel}")
             elif sel == "to_delayed":
